@@ -57,6 +57,18 @@ def valid_name(s, kind, limit):
     return kind == 'path' or set(s) <= ALPHA
 
 
+def bit_vectors(dotted):
+    """every assignment of the class's unconstrained bit arguments"""
+    import itertools
+    m = spec_table.BY_NAME.get(dotted)
+    if m is None:
+        return [{}]
+    bits = [f.name for f in m.fields if f.type == 'bit' and
+            (dotted, f.name) not in S._CONSTRAINED]
+    return [dict(zip(bits, combo))
+            for combo in itertools.product([False, True], repeat=len(bits))]
+
+
 def base_args(dotted):
     m = spec_table.BY_NAME[dotted]
     args = {}
@@ -91,8 +103,20 @@ def probe(dotted, slot, value, via):
         commands.Basic.Properties
     if via == 'ctor':
         return raises_value_error(lambda: cls(**{slot: value}))
+    verdicts = []
+    for bits in bit_vectors(dotted)[1:]:
+        # the same probe with every other combination of the class's flag bits
+        other = cls(**dict(base_args(dotted), **bits))
+        setattr(other, slot, value)
+        verdicts.append(raises_value_error(lambda: frame.marshal(other, 1)))
     obj = cls(**base_args(dotted))
     setattr(obj, slot, value)
+    first = raises_value_error(lambda: frame.marshal(obj, 1))
+    if any(v != first for v in verdicts):
+        raise Violation('flags-change-verdict:%s' % kind_of(dotted, slot),
+                        '%s.%s=%s: ValueError raised = %r with all flag bits False, '
+                        'but %r with the other flag combinations' %
+                        (dotted, slot, canon.short(value, 80), first, verdicts))
     # the verdict must not change when the same object is encoded again (a failed
     # attempt must not leave the object 'approved'), nor between the entry points
     verdicts = [raises_value_error(lambda: frame.marshal(obj, 1)),
